@@ -352,7 +352,8 @@ def attr_sat(c, value):
     vals = [None] if value is None else list(value) if isinstance(value, list) else [value]
     if any(crit_sat(c, x) for x in vals):
         return True
-    return len(vals) > 1 and crit_sat(c, " ".join(vals))
+    # a multi-valued attribute also counts as one space-joined string (no values at all: the empty string)
+    return len(vals) != 1 and crit_sat(c, " ".join(vals))
 
 
 class Q:
@@ -412,6 +413,8 @@ def sat(q: Q, snap: Snap, i: int) -> bool:
     no_criteria = q.name == ("n",) and not pairs and q.string == ("n",)
     if no_criteria:
         return snap.is_tag[i]
+    if any(yields_no_rule(c) for c in q.crits()):
+        return False          # a criterion offering no alternative ([] / only nested lists / only None): nothing satisfies it
     has_tag_criteria = q.name != ("n",) or bool(pairs)
     if snap.is_tag[i]:
         if not has_tag_criteria:
@@ -600,8 +603,10 @@ def expected(snap: Snap, start: int, fam: str, form: str, limit, q: Q):
     log = None
     if q.name[0] == "f":
         # a function given as the name criterion is called once per candidate tag, with the Tag
+        # (a query that nothing can satisfy has no candidates)
         cand = ax if consumed_to is None else ax[:ax.index(consumed_to) + 1]
-        log = [("t", q.name[1], i) for i in cand if snap.is_tag[i]]
+        unsat = any(yields_no_rule(c) for c in q.crits())
+        log = [] if unsat else [("t", q.name[1], i) for i in cand if snap.is_tag[i]]
     return res, log
 
 
@@ -672,18 +677,12 @@ def parse_model(fam, reply, singular):
 def classify(q: Q, limit, form):
     if form in ("all", "call") and limit == 0:
         return "C10-limit-zero"
-    if q.attrs[0] == "S" and not py_truthy(q.attrs[1]):
-        return "C10-falsy-attrs-ignored"
-    cr = ([q.name] if q.name != ("n",) else []) + ([c for _, c in (q.attrs[1] if q.attrs[0] == "D" else [("class", q.attrs[1])])]) \
-        + [c for _, c in q.kwargs] + ([q.string] if q.string != ("n",) else [])
-    if len(cr) >= 2 and any(yields_no_rule(c) for c in cr):
-        return "C10-empty-list-combined"
     return None
 
 
 def code_path(q: Q, limit):
     """which branch of _find_all the case is expected to take (for the input distribution only)"""
-    basic = q.string == ("n",) and not q.kwargs and (not q.attrs[1] if q.attrs[0] == "D" else not py_truthy(q.attrs[1]))
+    basic = q.string == ("n",) and not q.kwargs and q.attrs[0] == "D" and not q.attrs[1]
     if basic and q.name == ("n",):
         return "no-criteria-branch"
     if basic and not limit:
@@ -978,12 +977,8 @@ def run_css(ctx, r, snap, lines, pend):
         desc = {"op": "css", "markup": str(snap.soup), "tree": snap.enc, "start": start, "selector": sel}
         bad = got != want
         if bad:
-            kf = None
-            m = re.match(r"^\[([a-z-]+)\]$", sel)
-            if m and any(snap.is_tag[i] and n.attrs.get(m.group(1)) == [] for i, n in enumerate(snap.nodes)):
-                kf = "C10-empty-multivalued-attr"
             ctx.violation("select() disagrees with find_all on a selector both express", case=desc,
-                          expected=show_res(want), observed=show_res(got), stream="css", kf=kf)
+                          expected=show_res(want), observed=show_res(got), stream="css")
         if form is not None:
             lines.append(f"c10 find r {snap.enc} {start} desc {form} none n D n - - - -")
             pend.append((desc, got, bad))
